@@ -5,6 +5,7 @@ import (
 	"bytes"
 	"compress/gzip"
 	"fmt"
+	"io"
 	"os"
 	"path/filepath"
 	"runtime"
@@ -158,6 +159,19 @@ func checkRoundtrip(c Case) error {
 		return err
 	}
 	if err := same("Parse(Build(x))", got, want); err != nil {
+		return err
+	}
+	// a reader the caller has already read from (a line of its own in front of the records): parsing starts where the
+	// reader stands
+	ownLine := "#records follow; this line is the caller's own\n"
+	at := bytes.NewReader(append([]byte(ownLine), text...))
+	if _, err := at.Seek(int64(len(ownLine)), io.SeekStart); err != nil {
+		return vk.Harnessf("seek: %v", err)
+	}
+	if got, err = bounded("Parse(reader positioned behind a line the caller read)", func() []fasta.Fasta { return fasta.Parse(at) }); err != nil {
+		return err
+	}
+	if err := same("Parse(reader positioned behind a line the caller read)", got, want); err != nil {
 		return err
 	}
 	dir := vk.WorkDir()
